@@ -8,7 +8,7 @@ Then a script interleaves calls on two instances (imported objects are shared be
 The driver is generated from an independent implementation of the symbol scheme, so a link failure is a violation.
 """
 import os, shutil
-from vlib import env, e2e, gen, wasm, diff
+from vlib import env, e2e, gen, wasm, diff, progs
 from vlib.wasm import *
 
 LEVEL = 'exploration'
@@ -254,7 +254,7 @@ def main(chk):
                 kinds += [('slotprobe', 0)] * len(slots) + [('slotprobe', 1)] * len(slots)
                 st, ref, _ = e2e.run_ref(b, plan, script, d)
             for tag, cc, cflags in builds:
-                outs[tag] = e2e.build_and_run(w2c2, b, plan, script, os.path.join(d, tag), cc=cc, cflags=cflags)[:2]
+                outs[tag] = e2e.build_and_run(w2c2, b, plan, script, os.path.join(d, tag), cc=cc, cflags=cflags, opts=progs.opts_for(k))[:2]
         shutil.rmtree(d, ignore_errors=True)
         return k, shape, b, script, kinds, st, ref, outs
 
